@@ -1,6 +1,7 @@
 import TsVerif.C05.Props
 import TsVerif.C05.VerifyProps
 import TsVerif.C05.GroupProps
+import TsVerif.C05.JudgeProps
 #print axioms TsVerif.C05.mem_seqOne_iff
 #print axioms TsVerif.C05.mem_seqMany_iff
 #print axioms TsVerif.C05.mem_seq_iff
@@ -29,3 +30,9 @@ import TsVerif.C05.GroupProps
 #print axioms TsVerif.C05.expandBs_direct
 #print axioms TsVerif.C05.satVsK_finalize
 #print axioms TsVerif.C05.buildNode_direct
+#print axioms TsVerif.C05.mem_matchAll_iff
+#print axioms TsVerif.C05.matchAll_exactly_once
+#print axioms TsVerif.C05.mem_modelMatches_iff
+#print axioms TsVerif.C05.canon_perm
+#print axioms TsVerif.C05.counts_eq_of_sound_complete
+#print axioms TsVerif.C05.kids_le_maxFanout
